@@ -229,10 +229,11 @@ MODELLED = {
 RENDER = ["Convergen.Bridge.Render"]
 TABLES = ["Convergen.Bridge.Tables"]
 NODES = ["Convergen.Bridge.Nodes"]
+DECISIONS = ["Convergen.Bridge.Decisions"]
 
 PROPS = {
     "C01": {
-        "bridge": RENDER + TABLES + NODES,
+        "bridge": RENDER + TABLES + NODES + DECISIONS,
         "extra_modules": ["Convergen.Props.C04", "Convergen.Props.C16"],
         "sweeps": [sweep_front("mixed", 160, 6000, cats=["body", "slice", "hook", "header", "errflow"], compile=True),
                    sweep_front("matching", 100, 3000, cats=["body", "slice"], compile=True),
@@ -303,7 +304,7 @@ PROPS = {
         "assumptions": ["only the two documented spellings of the pure convergen constraint are claimed (compound constraints are outside the stated quantifier)"],
     },
     "C04": {
-        "bridge": RENDER + TABLES + NODES,
+        "bridge": RENDER + TABLES + NODES + DECISIONS,
         "sweeps": [sweep_front("matching", 150, 4000, cats=["body", "slice", "stderr"]),
                    sweep_front("plain", 60, 3000, cats=["body", "slice", "stderr"]),
                    sweep_front("mixed", 60, 2000, cats=["body", "slice", "stderr"])],
@@ -333,7 +334,7 @@ PROPS = {
         "assumptions": ["go/types relations are oracle tables"],
     },
     "C06": {
-        "bridge": RENDER + TABLES + NODES,
+        "bridge": RENDER + TABLES + NODES + DECISIONS,
         "sweeps": [sweep_front("notations", 160, 4000, cats=["body", "slice", "stderr"]),
                    sweep_front("nesting", 80, 2000, cats=["body", "slice", "stderr"]),
                    sweep_front("casefold", 60, 2000, cats=["body", "slice", "stderr"])],
@@ -350,7 +351,7 @@ PROPS = {
         "assumptions": ["the order of the chain in the Go source is pinned by Bridge.precedence_eq"],
     },
     "C07": {
-        "bridge": RENDER + NODES,
+        "bridge": RENDER + NODES + DECISIONS,
         "sweeps": [sweep_front("errors", 150, 4000, cats=["errflow", "body", "hook", "exit"]),
                    sweep_front("hooks", 80, 2000, cats=["errflow", "hook", "exit"]), sweep_runtime(50, 1500)],
         "rule": FRONT_RULE % "errors",
@@ -359,7 +360,7 @@ PROPS = {
         "assumptions": ["semantics of the emitted Go fragment (GoSem) is validated by the run-time driver, not proved about Go"],
     },
     "C08": {
-        "bridge": RENDER,
+        "bridge": RENDER + DECISIONS,
         "sweeps": [sweep_front("signatures", 140, 3000, cats=["header", "missing-func", "exit"]),
                    sweep_front("imports", 80, 2000, cats=["header", "missing-func", "exit"])],
         "rule": FRONT_RULE % "signatures",
@@ -379,7 +380,7 @@ PROPS = {
         "assumptions": ["distinct interface methods have distinct doc nodes and comment groups (go/ast): evaluated by the driver on every input (methodsApart)"],
     },
     "C10": {
-        "bridge": RENDER,
+        "bridge": RENDER + DECISIONS,
         "sweeps": [sweep_front("hooks", 200, 4000, cats=["hook", "exit", "errflow"]), sweep_runtime(50, 1500)],
         "rule": FRONT_RULE % "hooks",
         "explanation": "text order doc/signature/allocation/pre/assignments/post/return; call arguments dst, src, extra args in "
@@ -433,7 +434,7 @@ PROPS = {
         "assumptions": ["flag parsing is modelled for the four documented flags (the flag package itself is not)"],
     },
     "C14": {
-        "bridge": TABLES,
+        "bridge": TABLES + DECISIONS,
         "sweeps": [sweep_front("malformed", 200, 6000, cats=["exit", "stderr"]),
                    sweep_front("mixed", 80, 3000, cats=["exit", "stderr"])],
         "rule": FRONT_RULE % "malformed",
@@ -442,7 +443,7 @@ PROPS = {
         "assumptions": [],
     },
     "C16": {
-        "bridge": RENDER,
+        "bridge": RENDER + DECISIONS,
         "sweeps": [sweep_front("slices", 150, 4000, cats=["slice", "body"]), sweep_runtime(50, 1500)],
         "rule": FRONT_RULE % "slices",
         "explanation": "sliceToSlice decision = spec; no converting loop without :typecast; text of the three statements "
